@@ -63,6 +63,12 @@ Section WithTable.
      5  VIOLATION: panic    9 oracle table misses a query *)
   Definition judge20 (g1 : G) (lock : list pkglock) (i : impl_res G) : N * N :=
     let model_lock := from_graph_list str str str idf idf idf g1 in
+    (* the property itself is decided on the implementation's answer first: a graph inside
+       wf_graph (reason 0) that the real code does not bring back is a violation with this
+       input, whether or not the model still agrees with the code *)
+    let holds_impl := match i with IOk g2 => graph_equivb g2 g1 | _ => false end in
+    if (reason g1 =? 0)%N && negb holds_impl && negb (match i with IPanic => true | _ => false end)
+    then (2, 0)%N else
     if negb (lock_set_eqb model_lock lock) then (1, 99)%N else
     if negb (forallb (fun p => covered false t (pl_source p)) lock) then (9, 99)%N else
     let r := reason g1 in
